@@ -21,7 +21,7 @@ DEV_REAPER = "kill-races-with-reaper-start"
 
 KINDS = ["basic", "hook", "ctl"]
 BEHS = ["sleep", "ignore", "fork", "exit0", "exit3", "crash", "noready", "stuck", "done0", "done3", "donesig", "nodone", "fmq",
-        "midstate", "resetstuck"]
+        "midstate", "resetstuck", "slow"]
 REQS = ["CONFIGURE", "START", "STOP", "Trigger", "Kill"]
 INSTS = ["launching", "nochild", "starting", "polling", "running", "exiting", "reaped", "gone"]
 NTHS = [1, 2, 3]   # first / repeated back to back / repeated after a terminal status had been reported
@@ -268,7 +268,8 @@ def _run(ctx, replay_scn):
                     c["id"] = sid
                     extra.append(c)
         chosen += extra
-    scenarios += sorted(chosen, key=lambda s: s["id"])
+    # (the supervisor starts them in this order: the ones that take 12 s of real time first, in parallel with the rest)
+    scenarios += sorted(chosen, key=lambda s: (0 if s["beh"] == "slow" else 1, s["id"]))
     ctx.log("plans enumerated by TLC: %d; replaying %d scenarios" % (len(allscn), len(scenarios)))
 
     # 3. replay on the real code
@@ -314,6 +315,9 @@ def _run(ctx, replay_scn):
         observed.setdefault(scn, set()).add(inv)
         sig = {"inv": inv, "kind": s.get("kind"), "impl": IMPL.get(s.get("kind")), "beh": s.get("beh"), "r": det[0], "inst": det[1],
                "nth": det[2] if det[2] <= 1 else (3 if det[4] else 2), "site": re.sub(r"(\.func[0-9]+)+$", "", det[3])}   # closures count as their method
+        if inv == "TransitionTruthful":
+            sig.update({"clause": "C16 (the state reported after a transition is the device's real state), at executable.Task.Transition",
+                        "detail": det[3], "site": ""})
         key = (scn, json.dumps(sig, sort_keys=True))
         if key in seen:
             continue
